@@ -83,17 +83,7 @@ fn run(args: &[String]) {
 
     let t0 = Instant::now();
     let distinct = Distinct::new(if cfg!(miri) { 16 } else { 29 });
-    let prop_for_hang = prop;
-    let replays_for_hang = replays.clone();
-    watchdog::arm(threads, move |cases| {
-        // CPU-time-confirmed hang inside a single observed call
-        let _ = std::fs::create_dir_all(&replays_for_hang);
-        let path = format!("{replays_for_hang}/{prop_for_hang}-hang.json");
-        let j = J::obj().set("kind", "hang").set("property", prop_for_hang).set("cases", J::Arr(cases.into_iter().map(J::from).collect()));
-        let _ = std::fs::write(&path, j.to_pretty());
-        println!("HANG property={prop_for_hang} replay={path}");
-        std::process::exit(3);
-    });
+    arm_watchdog(prop, &replays, seed, &tool, out.clone());
 
     let mut total = Ctx::new(prop, &distinct, seed, thorough, scale);
     let results: Vec<std::thread::Result<Ctx>> = std::thread::scope(|sc| {
@@ -210,6 +200,43 @@ fn run(args: &[String]) {
     }
 }
 
+/// Arm the hang detector: a CPU-time-confirmed stall inside an observed call is a violation
+/// (exit 3, HANG line, replay file with the exact case); a stall outside one is a harness error (exit 2).
+fn arm_watchdog(prop: &'static str, replays: &str, seed: u64, tool: &str, out: Option<String>) {
+    let replays = replays.to_string();
+    let tool = tool.to_string();
+    watchdog::arm(move |stall| match stall {
+        watchdog::Stall::InCall(case) => {
+            let _ = std::fs::create_dir_all(&replays);
+            let path = format!("{replays}/{prop}-hang.json");
+            let subject = case.gs("monitor").unwrap_or("unknown").to_string();
+            let j = J::obj()
+                .set("property", prop)
+                .set("signature", format!("{prop}|terminates|{subject}|cpu-time-confirmed-hang"))
+                .set("clause", "terminates")
+                .set("expected", "every call into the crate returns")
+                .set("observed", format!("one observed call did not return while its thread burned >= {} s of CPU", watchdog::CALL_CPU_LIMIT_S))
+                .set("seed", seed)
+                .set("tool", tool.as_str())
+                .set("case", case);
+            let _ = std::fs::write(&path, j.to_pretty());
+            println!("HANG property={prop} subject={subject} replay={path}");
+            std::process::exit(3);
+        }
+        watchdog::Stall::Harness(case) => {
+            let _ = std::fs::create_dir_all(&replays);
+            let path = format!("{replays}/{prop}-harness-stall.json");
+            let _ = std::fs::write(&path, J::obj().set("property", prop).set("kind", "harness-stall").set("case", case).to_pretty());
+            println!("INCONCLUSIVE property={prop} reason=harness-stall-outside-observed-call (see {path})");
+            if let Some(out) = &out {
+                let j = J::obj().set("prop", prop).set("inconclusive", "harness-stall-outside-observed-call");
+                let _ = std::fs::write(out, j.to_pretty());
+            }
+            std::process::exit(2);
+        }
+    });
+}
+
 fn replay(args: &[String]) {
     let path = args.get(2).expect("replay FILE");
     let text = std::fs::read_to_string(path).expect("read replay file");
@@ -220,6 +247,8 @@ fn replay(args: &[String]) {
     let case = j.get("case").expect("case");
     let distinct = Distinct::new(16);
     let mut ctx = Ctx::new(prop, &distinct, seed, false, 1.0);
+    let rdir = std::path::Path::new(path).parent().map(|p| p.join("again").to_string_lossy().to_string()).unwrap_or_else(|| "/verif/out/replays/again".into());
+    arm_watchdog(prop, &rdir, seed, "replay", None);
     if let Err(e) = mon::replay_case(&mut ctx, case) {
         println!("INCONCLUSIVE property={prop} reason=cannot-replay: {e}");
         std::process::exit(2);
